@@ -842,15 +842,45 @@ impl Database {
         key_disk_addr: u64,
         opp_id: u64,
     ) {
-        self.set_value_version(
-            key,
-            &value.value,
-            value.version,
-            ValueStatus::Ok,
-            value_disk_addr,
-            key_disk_addr,
-            opp_id,
-        );
+        // The snapshot works on a copy of the keys taken before it started writing: a write
+        // accepted since then must not be replaced by the (older) copy that was just stored.
+        // Such a key keeps its newer value and stays to be stored, only at its new place on disk
+        let mut db = self.map.write().unwrap();
+        let stored = match db.get(key) {
+            Some(current)
+                if current.version != value.version
+                    || current.value != value.value
+                    || (current.state == ValueStatus::Deleted)
+                        != (value.state == ValueStatus::Deleted) =>
+            {
+                let mut newer = current.clone();
+                newer.value_disk_addr = value_disk_addr;
+                newer.key_disk_addr = key_disk_addr;
+                if newer.state == ValueStatus::New || newer.state == ValueStatus::Ok {
+                    newer.state = ValueStatus::Updated;
+                }
+                newer
+            }
+            // Removed since the copy was taken while it had never been on disk (such a key is
+            // dropped at once): now it is on disk and has to be deleted there by the next snapshot
+            None if value.state == ValueStatus::New => Value {
+                value: String::from("<Empty>"),
+                version: value.version.saturating_add(1),
+                state: ValueStatus::Deleted,
+                value_disk_addr,
+                key_disk_addr,
+                opp_id,
+            },
+            _ => Value {
+                value: value.value.clone(),
+                version: value.version,
+                state: ValueStatus::Ok,
+                value_disk_addr,
+                key_disk_addr,
+                opp_id,
+            },
+        };
+        db.insert(key.clone(), stored);
     }
 
     /// apply the change to the database
